@@ -26,17 +26,88 @@ func main() {
 }
 
 const (
-	ioDeadline = 1500 * time.Millisecond
-	watchdog   = 5 * time.Second
+	ioDeadline          = 1500 * time.Millisecond
+	speaksFirstDeadline = 3500 * time.Millisecond
+	watchdog            = 5 * time.Second
 )
 
-// recConn records whether Close was called on the transport
-type recConn struct {
-	net.Conn
-	closed atomic.Bool
+// stalledWriteClose: handshake, then the peer stops reading; one Write parks in the transport with no write
+// deadline; Close must still return (it sees the Write in flight and closes the transport, which ends the Write).
+func stalledWriteClose(c *vh.Ctx, p plan, uc *utls.UConn, rc *recConn) {
+	key := p.key()
+	if err := uc.Handshake(); err != nil {
+		c.Count("stalled-write-close:handshake-failed")
+		rc.Close()
+		return
+	}
+	uc.SetDeadline(time.Time{}) // no deadline: only Close can end the Write
+	rc.stall.Store(true)
+	wdone := make(chan error, 1)
+	cdone := make(chan error, 1)
+	go func() { _, err := uc.Write(make([]byte, 1<<16)); wdone <- err }()
+	select {
+	case <-rc.blocked:
+	case <-time.After(watchdog):
+		c.Fail("stalled-write-not-reached/"+key, "the Write never reached the transport", p, "blocked", "transport write")
+		rc.Close()
+		return
+	}
+	time.Sleep(time.Duration(p.CloseDelay) * time.Microsecond)
+	go func() { cdone <- uc.Close() }()
+	var werr error
+	wret, cret := false, false
+	timeout := time.After(watchdog)
+	for !(wret && cret) {
+		select {
+		case werr = <-wdone:
+			wret = true
+		case <-cdone:
+			cret = true
+		case <-timeout:
+			c.Fail("deadlock/"+key, fmt.Sprintf("Close during a Write that is blocked on a stalled peer: Write returned=%v Close returned=%v after %v", wret, cret, watchdog),
+				p, "blocked", "Close closes the transport and both calls return")
+			rc.Close()
+			return
+		}
+	}
+	if werr == nil {
+		c.Fail("stalled-write-succeeded/"+key, "a Write whose transport write never completed returned nil", p, "nil", "error")
+	}
+	c.Count("stalled-write-close")
+	c.OracleCase("wrclose", fmt.Sprintf("CWrClose true %s true", vh.Bool(werr == nil)), "wrclose/"+key,
+		"Write/Close outcome not allowed by the interlock model", p, true)
 }
 
-func (r *recConn) Close() error { r.closed.Store(true); return r.Conn.Close() }
+// recConn records whether Close was called on the transport and can play a peer that has stopped reading:
+// with stall set, Write blocks (like a full TCP window without a write deadline) until the transport is closed.
+type recConn struct {
+	net.Conn
+	closed    atomic.Bool
+	stall     atomic.Bool
+	blocked   chan struct{} // closed when a Write has parked
+	closedCh  chan struct{}
+	blockOnce sync.Once
+	closeOnce sync.Once
+}
+
+func newRecConn(c net.Conn) *recConn {
+	return &recConn{Conn: c, blocked: make(chan struct{}), closedCh: make(chan struct{})}
+}
+
+func (r *recConn) Close() error {
+	r.closed.Store(true)
+	r.closeOnce.Do(func() { close(r.closedCh) })
+	return r.Conn.Close()
+}
+
+func (r *recConn) Write(b []byte) (int, error) {
+	if r.stall.Load() {
+		r.blockOnce.Do(func() { close(r.blocked) })
+		<-r.closedCh
+		return 0, net.ErrClosed
+	}
+	return r.Conn.Write(b)
+}
 
 var ids = []struct {
 	name string
@@ -53,8 +124,10 @@ type callerPlan struct {
 }
 
 type plan struct {
+	Kind      string       `json:"kind"` // mixed | stalled-write-close | implicit-speaks-first
 	ID        string       `json:"id"`
-	Server    string       `json:"server"` // normal | slow | abort
+	Server    string       `json:"server"` // normal | slow | abort | wait-first (no greeting: the client speaks first)
+	CloseDelay int         `json:"close_delay_us"`
 	Callers   []callerPlan `json:"callers"`
 	Reader    bool         `json:"reader"`
 	Writer    bool         `json:"writer"`
@@ -68,7 +141,24 @@ type plan struct {
 }
 
 func mkPlan(r *rand.Rand, seed int64, i int) plan {
-	p := plan{ID: ids[r.Intn(len(ids))].name, Seed: seed, Run: i, CloseAt: -1, CloseKind: "Close"}
+	p := plan{Kind: "mixed", ID: ids[r.Intn(len(ids))].name, Seed: seed, Run: i, CloseAt: -1, CloseKind: "Close"}
+	switch i % 7 {
+	case 3:
+		// Close while the single writer is blocked in the transport (peer stopped reading, no write deadline)
+		p.Kind, p.Server = "stalled-write-close", "normal"
+		p.CloseDelay = r.Intn(600)
+		return p
+	case 5:
+		// no explicit Handshake: Read and Write both start before the handshake and run it implicitly; the
+		// server waits for the client's request before it sends anything
+		p.Kind, p.Server = "implicit-speaks-first", "wait-first"
+		p.Reader, p.Writer = true, true
+		p.ReaderDelay, p.WriterDelay = r.Intn(200), r.Intn(200)
+		for k := r.Intn(3); k > 0; k-- {
+			p.Callers = append(p.Callers, callerPlan{StartDelay: r.Intn(400), CancelAt: -1})
+		}
+		return p
+	}
 	switch r.Intn(6) {
 	case 0:
 		p.Server = "abort"
@@ -113,6 +203,9 @@ func (p plan) key() string {
 			early++
 		}
 	}
+	if p.Kind != "mixed" {
+		return fmt.Sprintf("%s/%s/n%d", p.Kind, p.ID, len(p.Callers))
+	}
 	return fmt.Sprintf("%s/%s/n%d/early%d/late%d/%s", p.ID, p.Server, len(p.Callers), early, late,
 		map[bool]string{true: p.CloseKind, false: "noclose"}[p.CloseAt >= 0])
 }
@@ -142,7 +235,9 @@ func serve(ln net.Listener, cfg *tls.Config, mode string, delay time.Duration) {
 	if err := s.Handshake(); err != nil {
 		return
 	}
-	s.Write([]byte("hello"))
+	if mode != "wait-first" {
+		s.Write([]byte("hello"))
+	}
 	buf := make([]byte, 256)
 	for {
 		n, err := s.Read(buf)
@@ -168,7 +263,7 @@ func runPlan(c *vh.Ctx, p plan, scfg *tls.Config) {
 		c.Count("dial-failed")
 		return
 	}
-	rc := &recConn{Conn: raw}
+	rc := newRecConn(raw)
 	var id utls.ClientHelloID
 	for _, x := range ids {
 		if x.name == p.ID {
@@ -177,6 +272,15 @@ func runPlan(c *vh.Ctx, p plan, scfg *tls.Config) {
 	}
 	uc := utls.UClient(rc, &utls.Config{ServerName: "example.com", InsecureSkipVerify: true}, id)
 	uc.SetDeadline(time.Now().Add(ioDeadline))
+	if p.Kind == "stalled-write-close" {
+		stalledWriteClose(c, p, uc, rc)
+		return
+	}
+	if p.Kind == "implicit-speaks-first" {
+		// generous deadline: a working connection answers within milliseconds, a reader parked on the input lock
+		// that the writer needs returns only when this deadline expires
+		uc.SetDeadline(time.Now().Add(speaksFirstDeadline))
+	}
 
 	start := time.Now()
 	at := func(us int) { // sleep until us microseconds after start
@@ -229,6 +333,9 @@ func runPlan(c *vh.Ctx, p plan, scfg *tls.Config) {
 			defer wg.Done()
 			time.Sleep(time.Duration(p.ReaderDelay) * time.Microsecond)
 			buf := make([]byte, 5)
+			if p.Kind == "implicit-speaks-first" {
+				buf = make([]byte, 4) // the echo of the writer's "ping"
+			}
 			_, readErr = io.ReadFull(uc, buf)
 		}()
 	}
@@ -263,7 +370,14 @@ func runPlan(c *vh.Ctx, p plan, scfg *tls.Config) {
 		rc.Close()
 		return
 	}
-	_ = readErr
+	if p.Kind == "implicit-speaks-first" {
+		// nothing was cancelled or closed and the server answers every request: the reply must arrive
+		if readErr != nil || writeErr != nil {
+			c.Fail("implicit-stall/"+key, "Read and Write started before the handshake (implicit handshakes) against a server that waits for the client's "+
+				"request: the request/reply exchange did not happen", p, fmt.Sprintf("read err=%v write err=%v", readErr, writeErr), "reader receives the echo of the writer's request")
+		}
+		c.Count("implicit-speaks-first")
+	}
 	// cancel after return: must not touch the connection
 	lateOnly := p.CloseAt < 0 && p.Server == "normal"
 	for k, cp := range p.Callers {
